@@ -8,7 +8,7 @@
    of the sequential specification.  [abs_obs] abstracts a micro-state to the operation-granularity
    model of C01; [is_lin op pc] marks the linearizing micro-step (poll: the compare/register step
    holding both locks; set: the store holding the write lock; get / clone: their single step). *)
-From EB Require Import Obs ObsConc ObsConcFacts.
+From EB Require Import Obs ObsConc ObsConcFacts ObsConcLin.
 
 (* every micro-step of a value operation is either its linearization point - then the abstract
    state moves by exactly the sequential step of that operation, with the same result and the same
@@ -112,3 +112,34 @@ Theorem C04_seq_subscriber_ends_on_final :
        step veq heq vdefault o1 (SPoll k) = Ok (o2, OPollR Pending, []) /\ val o2 = val o).
 Proof. exact @subscriber_ends_on_final. Qed.
 Print Assumptions C04_seq_subscriber_ends_on_final.
+
+(* ---- whole schedules ----
+   For EVERY schedule of the director (any order of releases, including the cascades of threads
+   that a released lock unblocks) over value operations: the concurrent run is the sequential run
+   (Obs.step, the model of C01) of the same operations in the order of their linearization points -
+   same final value / version / registered wakers / subscriber versions, same wakers woken in the
+   same order; every operation takes effect at most once, exactly those past their linearization
+   point have, and every thread reports exactly the result the sequential run gives its operation
+   (a set returns the value stored by its immediate predecessor, a poll the value of the latest
+   preceding write).  The linearization point lies between the operation's own first and last
+   micro-step (C04_lin_once), which is what makes the order consistent with real time. *)
+Theorem C04_schedule_linearizable :
+  forall (V : Type) (veq heq : V -> V -> bool) (vdefault : V) (v : V) ver clones subs pending ops sched,
+    start_ok ver clones subs pending ops ->
+    value_ops ops ->
+    (forall k, In (CPoll k) ops -> k < length subs) ->
+    1 <= clones ->
+    let s0 := cinit v ver clones subs pending ops in
+    let s := run_sched true s0 sched in
+    let evs := sched_events s0 sched in
+    exists outs,
+      seq_run veq heq vdefault (abs_obs s0) (map (fun e => seq_op (le_op e)) evs)
+        = Some (abs_obs s, outs, c_woken s) /\
+      NoDup (map (@le_thread V) evs) /\
+      (forall t th, nth_error (c_threads s) t = Some th ->
+         (past_lin (t_op th) (t_pc th) = true <-> In t (map (@le_thread V) evs))) /\
+      (forall i e out th, nth_error evs i = Some e -> nth_error outs i = Some out ->
+         nth_error (c_threads s) (le_thread e) = Some th ->
+         t_op th = le_op e /\ reports th out).
+Proof. intros V veq heq vdefault v ver clones subs pending ops sched; apply sched_linearizable. Qed.
+Print Assumptions C04_schedule_linearizable.
